@@ -95,12 +95,15 @@ def writer_key_table(facts, writer, key_enum):
     hfn = facts.hir.get(writer)
     if hfn is None:
         return None
-    inits = H.binding_inits(hfn)
+    inits_by_fn = {}
     rows = []
     lits = []
-    for ev in H.write_events(hfn):
+    for ev in H.flat_write_events(facts, writer):
         if ev['kind'] != 'fmt':
             continue
+        if ev['fn'] not in inits_by_fn:
+            inits_by_fn[ev['fn']] = H.binding_inits(facts.hir[ev['fn']])
+        inits = inits_by_fn[ev['fn']]
         args = ev['args']
         pieces = ev['pieces']
         cond_roots = set()
@@ -430,12 +433,14 @@ def check_events(facts, out):
     out.anchor('KT', 'event writer / decoder event arms', hfn is not None and bool(dtab), str(sorted(dtab or {})))
     if hfn is None or not dtab:
         return
-    inits = H.binding_inits(hfn)
     n = 0
-    for ev in H.write_events(hfn):
+    for ev in H.flat_write_events(facts, writer):
         if ev['kind'] != 'fmt' or not ev['args']:
             continue
+        inits = H.binding_inits(facts.hir[ev['fn']])
         a0 = H.peel(ev['args'][0])
+        if a0.get('k') == 'local' and len(inits.get(a0['name'], [])) == 1:
+            a0 = H.peel(inits[a0['name']][0])
         var = None
         if a0.get('k') == 'cast':
             inner = H.peel(a0['e'])
